@@ -10,7 +10,7 @@ RULE = ("every schedule (preemption / x86-TSO store-delay budget) of concurrent 
         "specification of duplicate walks and traversals (resident nodes never missed, only nodes present at some instant, no "
         "node twice), final content, use-after-free detection on nodes and bucket arrays; a case is non-trivial when two "
         "threads touched the same memory granule")
-ASSUMPTIONS = ["specification flavor states C01's guarantee (assume-guarantee)", "x86-TSO", "nodes are reclaimed by their owner one "
+ASSUMPTIONS = ["specification flavor states C01's guarantee (assume-guarantee); a subset of the scenarios also runs over the real memb and bp flavors", "x86-TSO", "nodes are reclaimed by their owner one "
                "specification grace period after removal", "2 CPUs reported to the library"]
 DEADLINE = {"quick": 170, "thorough": 1700}
 
@@ -50,6 +50,14 @@ def jobs(tier):
     J.append(conc("2,0,0,0" if q else "3,0,0,0", prog0=prog((K_ADD, 3)), prog1=prog((K_LOOKUP, 0), (K_WALKALL, 0)), **lz))
     J.append(conc("2,0,0,0", prog0=prog((K_ADD, 3), (K_DEL, 1)), prog1=prog((K_LOOKUP, 1), (K_LOOKUP, 2)), **lz))
     J.append(conc("1,1,0,0", prog0=prog((K_ADD, 3)), prog1=prog((K_LOOKUP, 0), (K_WALKALL, 0)), settle_end=0, **lz))
+    # the table bound to real flavors (memb with sys_membarrier, bp without): same oracles, real grace periods
+    for b, env in REAL:
+        deep = (not q) or b == "lfht_memb"
+        J.append(conc_real(b, env, "2,0,0,0" if deep else "1,0,0,0", hmap=0, enum=1, nenum=2, nops=1, **TWO))
+        J.append(conc_real(b, env, "1,1,0,0" if q else "2,1,0,0", hmap=2, init=2, enum=1, nenum=2, nops=1, **TWO))
+        J.append(conc_real(b, env, "2,0,0,0" if deep else "1,0,0,0", hmap=2, init=2, enum=1, enum2=4, nenum=2, nops=1, **TWO))
+        if not q:
+            J.append(conc_real(b, env, "2,0,0,0", workers=16, hmap=0, enum=1, nenum=3, nops=1, **TWO))
     return J
 
 
